@@ -93,6 +93,9 @@ def run_check(prop, tier, seed, jobs):
         flt = os.environ.get('VERIF_FAMILY')  # debugging aid: restrict to families whose name contains this string (not used by registered commands)
         if flt:
             specs = [x for x in specs if flt in x['family']]
+        skip = os.environ.get('VERIF_SKIP_FAMILY')  # debugging aid, the other way round
+        if skip:
+            specs = [x for x in specs if skip not in x['family']]
         # the seed only rotates the order in which scenarios are visited; the set explored is the same
         if specs:
             k = seed % len(specs)
